@@ -225,7 +225,7 @@ pub fn scenarios(_tier: &str) -> Vec<Scenario> {
                     // these plans keep the payload inside the response body object
                     continue;
                 }
-                for arrival in ["all", "second-later", "body-split"] {
+                for arrival in ["all", "second-later", "body-split", "body-split-second-later"] {
                     let r0 = mkbody(RequestSpec::new("POST", 0));
                     let r1 = RequestSpec::new("GET", 1);
                     let p0 = HandlerProgram::ok(rb.clone()).plan(plan.clone());
@@ -236,6 +236,8 @@ pub fn scenarios(_tier: &str) -> Vec<Scenario> {
                     s = match arrival {
                         "all" => s,
                         "second-later" => with_segments(s, &[(end, When::Quiescent)]),
+                        // the rest of the body in one later read, the second request in a still later one
+                        "body-split-second-later" => with_segments(s, &[(he + 7, When::Quiescent), (end, When::Quiescent)]),
                         _ => with_segments(s, &[(he + 7, When::Quiescent)]),
                     };
                     out.push(finish(s, cfg, *horizon));
@@ -331,6 +333,26 @@ pub fn scenarios(_tier: &str) -> Vec<Scenario> {
         s.fin = FinPlan::Anytime;
         let cfg = Config { half_closed: false, ..Config::default() };
         out.push(finish(s, &cfg, 0));
+    }
+    // family H: a request head that does not fit the read buffer (431, the connection ends),
+    // over a plain and over a buffering (TLS-like) transport
+    for (n, lines) in [("single-line", false), ("header-lines", true)] {
+        for buffered in [false, true] {
+            let mut s = Scenario::new(&format!("H:oversized-head-{n}/buffered={buffered}"), vec![RequestSpec::new("GET", 0)], vec![HandlerProgram::ok(BodySpec::Bytes(b"ok".to_vec()))]);
+            let mut tail = if lines { b"GET /1 HTTP/1.1\r\nhost: t\r\n".to_vec() } else { b"GET /1 HTTP/1.1\r\nx-endless: ".to_vec() };
+            if lines {
+                while tail.len() < 140_000 {
+                    tail.extend_from_slice(b"x-filler: 0123456789012345678901234567890123456789012345678901234567890123456789\r\n");
+                }
+            } else {
+                tail.resize(140_000, b'a');
+            }
+            s.tail = tail;
+            s.io.buffered = buffered;
+            s.fin = FinPlan::Never;
+            s.env.budgets = vec![("read", 6), ("write", 8), ("flush", 6), ("env", 16), ("envq", 6), ("shutdown", 2)];
+            out.push(s);
+        }
     }
     out
 }
